@@ -110,9 +110,13 @@ def xfer_script(start, xfers):
 PIPES = {'p1': ['Pipe', 1], 'p2': ['Pipe', 2], 'p3': ['Pipe', 3], 'pinf': ['Pipe', 'inf'], 'unb': ['UnboundedPipe']}
 
 
-def program(pipe, scripts):
+def program(pipe, scripts, other=False):
     kids = [['DO', 'x%d' % (i + 1), s] for i, s in enumerate(scripts)]
-    return {'objs': {'p': PIPES[pipe]}, '_nops': 40, '_pipe': pipe,
+    if other:
+        # an unrelated pipe that is busy at the same time must not influence this one
+        kids.append(['DO', 'y1', [['XFER', 'q', 8, None], ['PROBE', 'now']]])
+        kids.append(['DO', 'y2', [['D', 1], ['XFER', 'q', 4, 2], ['PROBE', 'now']]])
+    return {'objs': {'p': PIPES[pipe], 'q': ['Pipe', 2]}, '_nops': 40, '_pipe': pipe,
             'roots': [['root', [['SCOPE', 's', kids], ['XFER', 'p', 2, None], ['PROBE', 'now']]]]}
 
 
@@ -148,6 +152,8 @@ def cases(tier):
         if not small:
             for a, b, c in itertools.product(tri, tri, tri):
                 out.append(program(pipe, [a, b, c]))
+        for a, b in itertools.product(ss[::3], ss[::5]):
+            out.append(program(pipe, [a, b], other=True))
     return out
 
 
@@ -164,18 +170,21 @@ def pipe_model(ctx, program):
             order.append((act, pc))
         elif kind in ('end', 'exc') and (act, pc) in ops and kind not in ops[(act, pc)]:
             ops[(act, pc)][kind] = now
-    xs = []
+    xs, other = [], []
     for key in order:
         o = ops[key]
         op = ST_op(program, *key)
         limit = op[3] if len(op) > 3 else None
-        if spec[0] == 'UnboundedPipe' and limit is None:
-            limit = None
-        xs.append({'start': o['start'], 'vol': op[2], 'limit': limit, 'abort': o.get('exc'), 'key': key, 'end': o.get('end')})
+        rec = {'start': o['start'], 'vol': op[2], 'limit': limit, 'abort': o.get('exc'), 'key': key, 'end': o.get('end')}
+        (xs if op[1] == 'p' else other).append(rec)
     if spec[0] == 'UnboundedPipe':
         ends = [(x['start'] + (Fraction(x['vol']) / x['limit'] if x['limit'] else 0)) if x['abort'] is None else None for x in xs]
     else:
         ends = fluid(T, xs)
+    if other:
+        # the second pipe (throughput 2) is judged by its own fluid model
+        ends = list(ends) + fluid(2, other)
+        xs = xs + other
     overlap = False
     for x, e in zip(xs, ends):
         if x['abort'] is not None:
